@@ -272,6 +272,37 @@ def _r8src(n):
     return "/tmp/mut8/%s/_out/%s" % (n[2:4], n[4])
 SRC_OVERRIDE.update({n: _r8src(n) for n in NEEDS if n.startswith("R8")})
 
+# round 9: same organisation as round 8, ~200 earlier ideas; ids R9p<n><A|B|C>
+NEEDS.update({
+ "R9p1A": ("C10", "sum_of_products fast path for a common scalar: k * (sum of ALL points) although only min(#points,#scalars) terms count", "all used scalars equal and non-zero, strictly more points than scalars"),
+ "R9p1B": ("C10", "sum_of_products adds a point directly when its scalar 'is 1' (limb 3 never inspected)", "a scalar 1 + j*2^192"),
+ "R9p1C": ("C10", "Pippenger short-last-window branch iterates over all scalars", "more scalars than points, a window not dividing 256, a surplus scalar with low bits set: index panic"),
+ "R9p2A": ("C04", "G2 unchecked decoders range-check c1 before c0", "both components of one coordinate non-reduced: only the LABEL inside the coordinate error changes (category unchanged)"),
+ "R9p2B": ("C04", "G1Uncompressed::into_affine memo keyed by the x slot and the parity of y", "a valid point, then on the same thread the same x with another y of equal parity: accepted"),
+ "R9p2C": ("C05", "G2Compressed::from_affine hand-expanded comparison with a crossed tie-break", "y in Fq above (q-1)/2 or y.c1 = -y.c0: such points exist only outside the order-r subgroup"),
+ "R9p3A": ("C09", "Fq6::mul_assign shortcut when the left operand has c1 + c2 == 0 drops two subtractions", "left operand with c1 == -c2 != 0"),
+ "R9p3B": ("C18", "Fq2 Ord gets hand-written min / max; min is a copy of max with only the outer arms swapped", "Ord::min on two different Fq2 values with equal c1"),
+ "R9p3C": ("C09", "Fq6::mul_by_01 guard on a0 + a2 != 0 swallows a subtraction", "a MULTIPLICAND with c0 == -c2 != 0"),
+ "R9p4A": ("C03", "Bls12::pairing override with a thread-local cache of the last G2 coefficients, read back after p.into()", "a caller-defined Into<G1Affine> type whose conversion evaluates a pairing with another G2 point: e(P,Q') returned"),
+ "R9p4B": ("C11", "pairing_product folds e(P,Q1) e(P,Q2) when p1.y == p2.y", "p2 = [lambda]p1: the automorphism image (beta x, y), same y and different x"),
+ "R9p4C": ("C20", "pairing_product override holds a process-wide Mutex across the four generic into() conversions", "a conversion that panics (lock poisoned for every later call) or that calls pairing_product itself (deadlock)"),
+ "R9p5A": ("C13", "XMD Z_pad fed as s_in_bytes / 64 words of 64 zero bytes", "a hash whose block size is not a multiple of 64: SHA-3 as H (no Merkle-Damgard hash available here is affected)"),
+ "R9p5B": ("C16", "eval_iso treats Z^3 == 1 as affine input", "a Jacobian representative whose Z is a primitive cube root of unity"),
+ "R9p5C": ("C13", "XMD b_i preimage assembled in [0u8; 64 + 1 + 255] (tag-length byte forgotten)", "a 64-byte digest, a 255-byte tag and more than one output block: panic"),
+ "R9p6A": ("C20", "mul_assign fixed-base path through a lazily built OnceLock table built from the first caller's representative", "the process's first generator multiplication uses a non-normalised representative: coordinates differ between processes"),
+ "R9p6B": ("C20", "wnaf_form process-wide one-entry memo reused when the limbs match and the window is >= the remembered one", "the same scalar recoded twice in a row, the second time with a wider window"),
+ "R9p6C": ("C20", "Pippenger buckets in a 512-entry stack array (72 / 144 KiB frame)", "a call from a thread whose stack is smaller than about 150 KiB: stack overflow"),
+})
+def _r9src(n):
+    return "/tmp/mut9/%s/_out/%s" % (n[2:4], n[4])
+SRC_OVERRIDE.update({n: _r9src(n) for n in NEEDS if n.startswith("R9")})
+REJECT = {
+ "R9p2A": "only the coordinate LABEL inside CoordinateDecodingError changes; the category (coordinate range) and its position in the validation order are unchanged, which is all C04 states. A behaviour-preserving control (BENb: 'another order of the range checks inside the coordinate stage') makes the same change and must stay silent.",
+ "R9p2C": "the triggering points exist only outside the order-r subgroup (the author says so): outside C05's domain, like C05A.",
+ "R9p5A": "C13 quantifies over Merkle-Damgard hashes; the only affected hashes are sponge functions (SHA-3 / Keccak), so the property as stated still holds.",
+ "R9p6C": "the change needs a calling thread with a stack below ~150 KiB; main and std::thread default stacks (8 / 2 MiB) are unaffected for every input. The checks claim C20 for threads with the platform's default stacks; stack frugality is not part of any property.",
+}
+
 
 def first_line(path, pat):
     try:
@@ -321,6 +352,9 @@ def main():
             meta["rejected_because"] = ("the triggering points (y sharing its top limb with (q-1)/2) can only be constructed outside the order-r subgroup "
                                         "(choose y, take a cube root): outside the domain of C05 / C19; inside the subgroup the trigger has probability 2^-60 "
                                         "per point and cannot be constructed. Kept only as a record.")
+        if name in REJECT:
+            meta["kept"] = False
+            meta["rejected_because"] = REJECT[name]
         if name == "R8n2A":
             meta["not_detected_because"] = ("the second string must collide with the first under a 64-bit fingerprint that only the changed code defines; "
                                             "no execution the checks produce (or could produce without reading that hash) contains such a pair, and every "
